@@ -687,6 +687,59 @@ fn check_type(ctx: &Ctx, rng: &mut Rng, st: &mut St) {
                 }
             }
         }
+        // ---- range texts for arrays of unsigned numbers: a range whose elements fit is the array of
+        //      its elements, a range that runs past the largest number of the element type denotes
+        //      no value (without suffix, with one suffix, with both)
+        if let Ty::Array(et, n) = &t {
+            if let Ty::Int(it) = &**et {
+                if !it.signed && *n >= 1 {
+                    let max = it.max_val();
+                    let suffixed = |v: i128, how: u64, left: bool| match (how, left) {
+                        (0, _) | (1, false) | (2, true) => v.to_string(),
+                        _ => it.lit(v),
+                    };
+                    let how = rng.below(4);
+                    // fits
+                    let lo = if rng.bool() { rng.below(5) as i128 } else { max + 1 - *n as i128 };
+                    if lo >= 0 {
+                        let text_r = format!("{}..{}", suffixed(lo, how, true), if lo + *n as i128 > max && how != 0 && how != 1 { (lo + *n as i128).to_string() } else { suffixed(lo + *n as i128, how, false) });
+                        let want = ty::encode_vec(&Val::Array((0..*n as i128).map(|k| Val::Int(lo + k)).collect()), &t, &d);
+                        match catch(|| prg.parse_arg(0, &text_r).map(|a| a.as_bits())) {
+                            Err(p) => {
+                                fail(&format!("parse_arg panicked on a range text: {p}"), json!({"text": text_r}));
+                                return;
+                            }
+                            Ok(Err(_)) => st.counts.inc("parse_arg(text): range that fits: refused"),
+                            Ok(Ok(b)) => {
+                                if b != want {
+                                    fail("parse_arg accepts a range text but encodes it differently from the array of its elements", json!({"text": text_r, "bits": bits_str(&b), "documented": bits_str(&want)}));
+                                    return;
+                                }
+                                st.counts.inc("parse_arg(text): range that fits: accepted-equal");
+                            }
+                        }
+                    }
+                    // runs past the largest number of the type
+                    if it.bits < 64 {
+                        let lo = max + 2 - *n as i128;
+                        if lo >= 0 {
+                            let text_r = format!("{}..{}", suffixed(lo, how, true), (lo + *n as i128).to_string());
+                            match catch(|| prg.parse_arg(0, &text_r).map(|a| a.as_literal())) {
+                                Err(p) => {
+                                    fail(&format!("parse_arg panicked on a range text: {p}"), json!({"text": text_r}));
+                                    return;
+                                }
+                                Ok(Err(_)) => st.counts.inc("parse_arg(text): range past the largest number of the type: refused"),
+                                Ok(Ok(parsed)) => {
+                                    fail("parse_arg accepts a range whose last element does not fit the element type (the text denotes no value)", json!({"text": text_r, "parsed": format!("{parsed:?}"), "type": t.show(&d)}));
+                                    return;
+                                }
+                            }
+                        }
+                    }
+                }
+            }
+        }
         // ---- canonical text with one number replaced by a number that does not fit its type: the
         //      text denotes no value of the type and must be refused (not wrapped or truncated)
         let n_ints = count_ints(&v);
